@@ -23,6 +23,15 @@ Qed.
 Lemma clients_ok_in cl c : forallb client_ok cl = true -> In c cl -> client_ok c = true.
 Proof. intros H Hin. rewrite forallb_forall in H. now apply H. Qed.
 
+Lemma secret_matches_eq a b : secret_matches a b = true -> String.eqb a b = true.
+Proof. unfold secret_matches. intro H. now apply andb_true_iff in H as [_ H]. Qed.
+
+Lemma secret_matches_refl a : a <> "" -> secret_matches a a = true.
+Proof.
+  intro H. unfold secret_matches. rewrite String.eqb_refl.
+  destruct (String.eqb_spec a ""); [contradiction | reflexivity].
+Qed.
+
 (* ---- who a request is taken to be ---------------------------------------- *)
 Lemma prov_client_claimed cl cr id a : prov_client cl cr = inl (id, a) -> id = claimed cr.
 Proof.
@@ -40,13 +49,13 @@ Proof.
     destruct (find_client cl i) as [c'|] eqn:Hf; [|discriminate].
     intro H. assert (c' = c) as ->.
     { destruct (c_auth c'); try (now inversion H);
-        destruct (String.eqb (c_secret c') s); now inversion H. }
+        destruct (secret_matches (c_secret c') s); now inversion H. }
     split; [reflexivity | now apply find_client_some in Hf].
   - destruct (String.eqb (cr_id cr) ""); [discriminate|].
     destruct (find_client cl (cr_id cr)) as [c'|] eqn:Hf; [|discriminate].
     intro H. assert (c' = c) as ->.
     { destruct (c_auth c'); try (now inversion H);
-        destruct (String.eqb (c_secret c') (cr_secret cr)); now inversion H. }
+        destruct (secret_matches (c_secret c') (cr_secret cr)); now inversion H. }
     split; [reflexivity | now apply find_client_some in Hf].
 Qed.
 
@@ -57,18 +66,24 @@ Proof.
   - destruct (String.eqb i ""); [discriminate|].
     destruct (find_client cl i) as [c'|]; [|discriminate].
     destruct (c_auth c') eqn:Ha; try discriminate;
-      try (destruct (String.eqb (c_secret c') s) eqn:Hs; [|discriminate]);
+      try (destruct (secret_matches (c_secret c') s) eqn:Hs; [|discriminate]; apply secret_matches_eq in Hs);
       inversion 1; subst; rewrite Ha; cbn; try reflexivity; exact Hs.
   - destruct (String.eqb (cr_id cr) ""); [discriminate|].
     destruct (find_client cl (cr_id cr)) as [c'|]; [|discriminate].
     destruct (c_auth c') eqn:Ha; try discriminate;
-      try (destruct (String.eqb (c_secret c') (cr_secret cr)) eqn:Hs; [|discriminate]);
+      try (destruct (secret_matches (c_secret c') (cr_secret cr)) eqn:Hs; [|discriminate]; apply secret_matches_eq in Hs);
       inversion 1; subst; rewrite Ha; cbn; try reflexivity; exact Hs.
 Qed.
 
 Lemma client_ok_inv c : client_ok c = true -> c_id c <> "".
 Proof.
   unfold client_ok. intros H E. rewrite E in H. discriminate.
+Qed.
+
+Lemma client_ok_secret c : client_ok c = true -> c_auth c <> ANone -> c_secret c <> "".
+Proof.
+  unfold client_ok. intros H Ha E. apply andb_true_iff in H as [_ H].
+  destruct (c_auth c); try contradiction; rewrite E in H; discriminate.
 Qed.
 
 (* the Provider router: authenticated = Basic header with the registered secret *)
@@ -81,7 +96,7 @@ Proof.
   unfold prov_authenticated in Ha.
   destruct (cr_basic cr) as [[i s]|].
   - destruct (find_client cl i) as [c'|] eqn:Hf'; [|discriminate].
-    destruct (String.eqb (c_secret c') s) eqn:Hs; [|discriminate].
+    destruct (secret_matches (c_secret c') s) eqn:Hs; [|discriminate]. apply secret_matches_eq in Hs.
     inversion H; subst. rewrite Hf in Hf'. inversion Hf'; subst. rewrite Hs. apply orb_true_r.
   - destruct (String.eqb (cr_id cr) ""); [discriminate|]. inversion H; subst.
     destruct (c_auth c); try discriminate. reflexivity.
@@ -99,13 +114,13 @@ Lemma canonical_prov cl c cr :
   exists a, prov_client cl cr = inl (c_id c, a) /\ prov_authenticated c a = true.
 Proof.
   intros Hf Hc Hok. pose proof (canonical_claimed _ _ Hc) as Hcl. rewrite Hcl in Hf.
-  pose proof (client_ok_inv _ Hok) as Hid.
+  pose proof (client_ok_inv _ Hok) as Hid. pose proof (client_ok_secret _ Hok) as Hsec.
   unfold canonical in Hc. unfold prov_client, secret_ok, prov_authenticated.
   destruct (c_auth c), (cr_basic cr) as [[i s]|]; try discriminate.
-  - repeat (apply andb_true_iff in Hc as [Hc ?]). apply String.eqb_eq in Hc. subst i.
-    rewrite Hf. rewrite String.eqb_sym. rewrite H0. eauto.
-  - repeat (apply andb_true_iff in Hc as [Hc ?]). apply String.eqb_eq in Hc. subst i.
-    rewrite Hf. rewrite String.eqb_sym. rewrite H0. eauto.
+  - repeat (apply andb_true_iff in Hc as [Hc ?]). apply String.eqb_eq in Hc, H0. subst i s.
+    rewrite Hf, secret_matches_refl by (apply Hsec; discriminate). eauto.
+  - repeat (apply andb_true_iff in Hc as [Hc ?]). apply String.eqb_eq in Hc, H0. subst i s.
+    rewrite Hf, secret_matches_refl by (apply Hsec; discriminate). eauto.
   - apply andb_true_iff in Hc as [Hc ?]. apply String.eqb_eq in Hc. rewrite Hc.
     destruct (String.eqb_spec (c_id c) ""); [contradiction | eauto].
 Qed.
@@ -115,15 +130,15 @@ Lemma canonical_legacy cl c cr :
   legacy_client cl cr = inl c.
 Proof.
   intros Hf Hc Hok. pose proof (canonical_claimed _ _ Hc) as Hcl.
-  pose proof (client_ok_inv _ Hok) as Hid.
+  pose proof (client_ok_inv _ Hok) as Hid. pose proof (client_ok_secret _ Hok) as Hsec.
   unfold legacy_client. unfold claimed in Hf, Hcl. unfold canonical in Hc.
   destruct (c_auth c) eqn:Ha, (cr_basic cr) as [[i s]|]; try discriminate.
-  - repeat (apply andb_true_iff in Hc as [Hc ?]). subst i.
+  - repeat (apply andb_true_iff in Hc as [Hc ?]). apply String.eqb_eq in H0. subst i s.
     destruct (String.eqb_spec (c_id c) ""); [contradiction|]. rewrite Hf, Ha.
-    rewrite String.eqb_sym. now rewrite H0.
-  - repeat (apply andb_true_iff in Hc as [Hc ?]). subst i.
+    now rewrite secret_matches_refl by (apply Hsec; discriminate).
+  - repeat (apply andb_true_iff in Hc as [Hc ?]). apply String.eqb_eq in H0. subst i s.
     destruct (String.eqb_spec (c_id c) ""); [contradiction|]. rewrite Hf, Ha.
-    rewrite String.eqb_sym. now rewrite H0.
+    now rewrite secret_matches_refl by (apply Hsec; discriminate).
   - rewrite Hcl. destruct (String.eqb_spec (c_id c) ""); [contradiction|].
     rewrite Hcl in Hf. now rewrite Hf, Ha.
 Qed.
